@@ -584,6 +584,6 @@ func init() {
 		Level:       "other",
 		Explanation: "Structural necessary conditions of 'each task is held by exactly one queue or one worker', decided for all paths of the current source: all scheduler state is accessed under the big lock (lock-flow engine with a guarded-by table, entry points enumerated); the worker<->task link and the task.operations<->operation.invocation mirror are written on both sides together; execute responses are only built from the responding worker's own task; the final response is stored only after unlinking and un-counting; worker reports are applied only under digest equality; index sentinels are tested consistently. Does not decide the whole-history invariant (needs state exploration).",
 		Assumptions: []string{"heap index fields mirror positions (container/heap contract)", "callbacks given to cleanupQueue.add only run from enter() (checked: cleanupQueue.run is only called there, rule C06.enter)"},
-		Rules:       []RuleFunc{c01Guarded, c01Pair, c01Dispatch, c01Complete, c01Identity, c01Sentinel, schedWorkerRemoval, schedUnqueueAll, schedOpsKey, schedParkedRecheck, schedHeapIndex, schedQueueRemovalCancel, schedExecutingCount, schedEnqueueQueuedOnly, schedNoChangeIdentity, schedNextTaskOnlyWhenFree},
+		Rules:       []RuleFunc{c01Guarded, c01Pair, c01Dispatch, c01Complete, c01Identity, c01Sentinel, schedWorkerRemoval, schedUnqueueAll, schedOpsKey, schedParkedRecheck, schedHeapIndex, schedQueueRemovalCancel, schedExecutingCount, schedEnqueueQueuedOnly, schedNoChangeIdentity, schedNextTaskOnlyWhenFree, schedNoExecuteAfterComplete},
 	})
 }
